@@ -26,6 +26,7 @@ import (
 	"time"
 
 	"github.com/daeuniverse/dae/common/consts"
+	"github.com/daeuniverse/dae/common/netutils"
 	"github.com/daeuniverse/dae/component/dns"
 	componentdialer "github.com/daeuniverse/dae/component/outbound/dialer"
 	"github.com/daeuniverse/dae/config"
@@ -71,6 +72,15 @@ type dnsUp struct {
 	tag    string
 	scheme string
 	addr   netip.AddrPort
+	host   string // non-empty: the upstream is configured by host name and resolved lazily (bootstrap seam)
+}
+
+// hostPort is how the upstream is written in the configuration (and in cache scopes).
+func (u *dnsUp) hostPort() string {
+	if u.host != "" {
+		return net.JoinHostPort(u.host, fmt.Sprint(u.addr.Port()))
+	}
+	return u.addr.String()
 }
 
 // dnsKey is the scoped cache key of the reference model: (name, type, scope)
@@ -343,6 +353,7 @@ type dnsWorld struct {
 	envTasks  int
 	reloads   int
 	fwdsAtReset int
+	hostResolves int
 	lruBatch  []*dnsEntryObs
 	lruBefore int
 	lruAt     time.Duration
@@ -649,7 +660,7 @@ func (w *dnsWorld) dnsSectionText(rs *dnsRuleSet) string {
 	var b strings.Builder
 	b.WriteString("global {}\nrouting { fallback: direct }\ndns {\n  upstream {\n")
 	for _, u := range w.ups {
-		fmt.Fprintf(&b, "    %s: '%s://%s'\n", u.tag, u.scheme, u.addr.String())
+		fmt.Fprintf(&b, "    %s: '%s://%s'\n", u.tag, u.scheme, u.hostPort())
 	}
 	b.WriteString("  }\n  routing {\n    request {\n")
 	for _, r := range rs.req {
@@ -674,7 +685,8 @@ func (w *dnsWorld) buildRouting(rs *dnsRuleSet) (*dns.Dns, error) {
 	if err != nil {
 		return nil, fmt.Errorf("config.New: %w\n%s", err, text)
 	}
-	d, err := dns.New(&conf.Dns, &dns.NewOption{Logger: w.log, UpstreamReadyCallback: func(*dns.Upstream) error { return nil }})
+	d, err := dns.New(&conf.Dns, &dns.NewOption{Logger: w.log, UpstreamReadyCallback: func(*dns.Upstream) error { return nil },
+		UpstreamResolverNetwork: "udp", UpstreamHostResolver: w.resolveUpstreamHost})
 	if err != nil {
 		return nil, fmt.Errorf("dns.New: %w\n%s", err, text)
 	}
@@ -682,6 +694,30 @@ func (w *dnsWorld) buildRouting(rs *dnsRuleSet) (*dns.Dns, error) {
 		return nil, err
 	}
 	return d, nil
+}
+
+// resolveUpstreamHost is the bootstrap resolution of a named-host upstream (the
+// production seam dns.NewOption.UpstreamHostResolver). It takes simulated time; the
+// delays are derived from the call count (30 ms, 5 ms, 1 ms, ...), so that of two
+// concurrent first users of an upstream the later one finishes first.
+func (w *dnsWorld) resolveUpstreamHost(ctx context.Context, host string, network string) (*netutils.Ip46, error, error) {
+	d := []time.Duration{30 * time.Millisecond, 5 * time.Millisecond, time.Millisecond}[w.hostResolves%3]
+	w.hostResolves++
+	w.s.Probe("dns.upstream-host-resolved")
+	w.s.Notef("bootstrap resolution of upstream host %s starts (takes %v)", host, d)
+	tm := time.NewTimer(d)
+	select {
+	case <-tm.C:
+	case <-ctx.Done():
+	}
+	tm.Stop()
+	verifsim.YieldB("upstream-host-resolver-woke")
+	for _, u := range w.ups {
+		if u.host == host {
+			return &netutils.Ip46{Ip4: u.addr.Addr()}, nil, nil
+		}
+	}
+	return &netutils.Ip46{}, fmt.Errorf("no such host %s", host), fmt.Errorf("no such host %s", host)
 }
 
 // ---------------------------------------------------------------------------
